@@ -73,9 +73,9 @@ pub(crate) const MM_NAMES: [&str; 19] = [
 pub(crate) const LOUD_COUNT: usize = 17;
 
 /// bound on nested `eval` / `exec_block` activations (guards the native stack)
-const MAX_NATIVE_DEPTH: usize = 12_000;
-/// longest string a program may build
-pub(crate) const MAX_STRING: usize = 1 << 24;
+const MAX_NATIVE_DEPTH: usize = 6_000;
+/// longest string a program may build; exceeding it ends the run like an exhausted step budget
+pub(crate) const MAX_STRING: usize = 1 << 20;
 
 type Scope<'a> = Vec<(&'a str, u32)>;
 
@@ -294,7 +294,8 @@ impl<'a, 'h> Interp<'a, 'h> {
     /// every string a program builds is paid for (64 bytes a step) and bounded
     pub(crate) fn new_string(&mut self, bytes: Vec<u8>) -> R<Value> {
         if bytes.len() > MAX_STRING {
-            return rt("string too long");
+            // a resource limit of the harness, not a Lua error: not catchable
+            return Err(Abort::OutOfSteps);
         }
         if bytes.len() >= 64 {
             self.charge((bytes.len() / 64) as u64)?;
@@ -489,46 +490,220 @@ impl<'a, 'h> Interp<'a, 'h> {
         }
     }
 
+    #[inline(never)]
+    fn exec_local(&mut self, names: &'a [Binding], values: &'a [Expr], fr: &mut Frame<'a>) -> R<Flow> {
+        let mut vals = self.eval_list(values, fr)?.into_iter();
+        for b in names {
+            let v = vals.next().unwrap_or(Value::Nil);
+            self.declare(fr, &b.name, v);
+        }
+        Ok(Flow::Normal)
+    }
+
+    #[inline(never)]
+    fn exec_assign(&mut self, targets: &'a [Expr], values: &'a [Expr], fr: &mut Frame<'a>) -> R<Flow> {
+        if targets.len() == 1 {
+            let t = self.eval_target(&targets[0], fr)?;
+            let v = if values.len() == 1 {
+                self.eval(&values[0], fr)?
+            } else {
+                self.eval_list(values, fr)?.into_iter().next().unwrap_or(Value::Nil)
+            };
+            self.store_target(t, v)?;
+            return Ok(Flow::Normal);
+        }
+        let mut ts = Vec::with_capacity(targets.len());
+        for t in targets {
+            ts.push(self.eval_target(t, fr)?);
+        }
+        let mut vals = self.eval_list(values, fr)?.into_iter();
+        for t in ts {
+            let v = vals.next().unwrap_or(Value::Nil);
+            self.store_target(t, v)?;
+        }
+        Ok(Flow::Normal)
+    }
+
+    #[inline(never)]
+    fn exec_compound(&mut self, target: &'a Expr, op: BinOp, value: &'a Expr, fr: &mut Frame<'a>) -> R<Flow> {
+        let t = self.eval_target(target, fr)?;
+        let cur = self.read_target(&t)?;
+        let rhs = self.eval(value, fr)?;
+        let v = self.binary(op, &cur, &rhs)?;
+        self.store_target(t, v)?;
+        Ok(Flow::Normal)
+    }
+
+    #[inline(never)]
+    fn exec_while(&mut self, cond: &'a Expr, body: &'a Block, fr: &mut Frame<'a>) -> R<Flow> {
+        loop {
+            self.step()?;
+            if !self.eval(cond, fr)?.truthy() {
+                break;
+            }
+            match self.exec_block(body, fr)? {
+                Flow::Break => break,
+                Flow::Return(v) => return Ok(Flow::Return(v)),
+                Flow::Normal | Flow::Continue => {}
+            }
+        }
+        Ok(Flow::Normal)
+    }
+
+    #[inline(never)]
+    fn exec_repeat(&mut self, body: &'a Block, cond: &'a Expr, fr: &mut Frame<'a>) -> R<Flow> {
+        loop {
+            self.step()?;
+            self.enter()?;
+            let base = fr.locals.len();
+            let cbase = self.cells.len();
+            let cc = self.closures_created;
+            // the condition sees the body's locals
+            let r = match self.exec_stmts(body, fr) {
+                Ok(Flow::Normal) | Ok(Flow::Continue) => match self.eval(cond, fr) {
+                    Ok(c) => Ok(if c.truthy() { Flow::Break } else { Flow::Normal }),
+                    Err(e) => Err(e),
+                },
+                other => other,
+            };
+            self.leave_scope(fr, base, cbase, cc);
+            self.native_depth -= 1;
+            match r? {
+                Flow::Break => break,
+                Flow::Return(v) => return Ok(Flow::Return(v)),
+                Flow::Normal | Flow::Continue => {}
+            }
+        }
+        Ok(Flow::Normal)
+    }
+
+    #[inline(never)]
+    fn exec_numfor(&mut self, var: &'a Binding, start: &'a Expr, limit: &'a Expr, step: Option<&'a Expr>, body: &'a Block, fr: &mut Frame<'a>) -> R<Flow> {
+        let v0 = self.eval(start, fr)?;
+        let v1 = self.eval(limit, fr)?;
+        let v2 = match step {
+            Some(s) => Some(self.eval(s, fr)?),
+            None => None,
+        };
+        let Some(mut i) = self.to_num(&v0) else {
+            return rt("'for' initial value must be a number");
+        };
+        let Some(lim) = self.to_num(&v1) else {
+            return rt("'for' limit must be a number");
+        };
+        let stp = match &v2 {
+            None => 1.0,
+            Some(v) => match self.to_num(v) {
+                Some(s) => s,
+                None => return rt("'for' step must be a number"),
+            },
+        };
+        if stp == 0.0 {
+            return rt("'for' step is zero");
+        }
+        loop {
+            let go = if stp > 0.0 { i <= lim } else { i >= lim };
+            if !go {
+                break;
+            }
+            self.step()?;
+            let base = fr.locals.len();
+            let cbase = self.cells.len();
+            let cc = self.closures_created;
+            self.declare(fr, &var.name, Value::Num(i));
+            let r = self.exec_block(body, fr);
+            self.leave_scope(fr, base, cbase, cc);
+            match r? {
+                Flow::Break => break,
+                Flow::Return(v) => return Ok(Flow::Return(v)),
+                Flow::Normal | Flow::Continue => {}
+            }
+            i += stp;
+        }
+        Ok(Flow::Normal)
+    }
+
+    #[inline(never)]
+    fn exec_genfor(&mut self, vars: &'a [Binding], exprs: &'a [Expr], body: &'a Block, fr: &mut Frame<'a>) -> R<Flow> {
+        let mut init = self.eval_list(exprs, fr)?.into_iter();
+        let mut f = init.next().unwrap_or(Value::Nil);
+        let mut s = init.next().unwrap_or(Value::Nil);
+        let mut c = init.next().unwrap_or(Value::Nil);
+        if self.dialect == Dialect::Luau {
+            if let Value::Table(_) = f {
+                if self.metamethod(&f, MM_CALL).is_nil() {
+                    let it = self.metamethod(&f, MM_ITER);
+                    if it.is_nil() {
+                        s = f;
+                        f = self.next_fn.clone();
+                        c = Value::Nil;
+                    } else {
+                        let mut r = self.call(&it, vec![f.clone()])?.into_iter();
+                        f = r.next().unwrap_or(Value::Nil);
+                        s = r.next().unwrap_or(Value::Nil);
+                        c = r.next().unwrap_or(Value::Nil);
+                    }
+                }
+            }
+        }
+        loop {
+            self.step()?;
+            let mut rs = self.call(&f, vec![s.clone(), c.clone()])?.into_iter();
+            let first = rs.next().unwrap_or(Value::Nil);
+            if first.is_nil() {
+                break;
+            }
+            c = first.clone();
+            let base = fr.locals.len();
+            let cbase = self.cells.len();
+            let cc = self.closures_created;
+            let mut cur = Some(first);
+            for b in vars {
+                let v = match cur.take() {
+                    Some(v) => v,
+                    None => rs.next().unwrap_or(Value::Nil),
+                };
+                self.declare(fr, &b.name, v);
+            }
+            let r = self.exec_block(body, fr);
+            self.leave_scope(fr, base, cbase, cc);
+            match r? {
+                Flow::Break => break,
+                Flow::Return(v) => return Ok(Flow::Return(v)),
+                Flow::Normal | Flow::Continue => {}
+            }
+        }
+        Ok(Flow::Normal)
+    }
+
+    #[inline(never)]
+    fn exec_function_stmt(&mut self, name: &'a FuncName, func: &'a FuncBody, fr: &mut Frame<'a>) -> R<Flow> {
+        let has_self = name.method.is_some();
+        let clo = self.make_closure(fr, func, has_self);
+        if name.fields.is_empty() && name.method.is_none() {
+            self.set_var(fr, &name.base, clo);
+            return Ok(Flow::Normal);
+        }
+        let mut obj = self.get_var(fr, &name.base);
+        let mut path: Vec<&'a str> = name.fields.iter().map(|s| s.as_str()).collect();
+        if let Some(m) = &name.method {
+            path.push(m.as_str());
+        }
+        let last = path.pop().expect("non-empty function name path");
+        for p in path {
+            let k = self.ast_bytes(p.as_bytes());
+            obj = self.index(&obj, &Value::Str(k))?;
+        }
+        let k = self.ast_bytes(last.as_bytes());
+        self.set_index(&obj, Value::Str(k), clo)?;
+        Ok(Flow::Normal)
+    }
+
     fn exec_stmt(&mut self, st: &'a Stmt, fr: &mut Frame<'a>) -> R<Flow> {
         match st {
-            Stmt::Local { names, values, .. } => {
-                let mut vals = self.eval_list(values, fr)?.into_iter();
-                for b in names {
-                    let v = vals.next().unwrap_or(Value::Nil);
-                    self.declare(fr, &b.name, v);
-                }
-                Ok(Flow::Normal)
-            }
-            Stmt::Assign { targets, values } => {
-                if targets.len() == 1 {
-                    let t = self.eval_target(&targets[0], fr)?;
-                    let v = if values.len() == 1 {
-                        self.eval(&values[0], fr)?
-                    } else {
-                        self.eval_list(values, fr)?.into_iter().next().unwrap_or(Value::Nil)
-                    };
-                    self.store_target(t, v)?;
-                    return Ok(Flow::Normal);
-                }
-                let mut ts = Vec::with_capacity(targets.len());
-                for t in targets {
-                    ts.push(self.eval_target(t, fr)?);
-                }
-                let mut vals = self.eval_list(values, fr)?.into_iter();
-                for t in ts {
-                    let v = vals.next().unwrap_or(Value::Nil);
-                    self.store_target(t, v)?;
-                }
-                Ok(Flow::Normal)
-            }
-            Stmt::CompoundAssign { target, op, value } => {
-                let t = self.eval_target(target, fr)?;
-                let cur = self.read_target(&t)?;
-                let rhs = self.eval(value, fr)?;
-                let v = self.binary(*op, &cur, &rhs)?;
-                self.store_target(t, v)?;
-                Ok(Flow::Normal)
-            }
+            Stmt::Local { names, values, .. } => self.exec_local(names, values, fr),
+            Stmt::Assign { targets, values } => self.exec_assign(targets, values, fr),
+            Stmt::CompoundAssign { target, op, value } => self.exec_compound(target, *op, value, fr),
             Stmt::Call(e) => {
                 self.enter()?;
                 let r = self.eval_call(e, fr);
@@ -537,45 +712,8 @@ impl<'a, 'h> Interp<'a, 'h> {
                 Ok(Flow::Normal)
             }
             Stmt::Do(b) => self.exec_block(b, fr),
-            Stmt::While { cond, body } => {
-                loop {
-                    self.step()?;
-                    if !self.eval(cond, fr)?.truthy() {
-                        break;
-                    }
-                    match self.exec_block(body, fr)? {
-                        Flow::Break => break,
-                        Flow::Return(v) => return Ok(Flow::Return(v)),
-                        Flow::Normal | Flow::Continue => {}
-                    }
-                }
-                Ok(Flow::Normal)
-            }
-            Stmt::Repeat { body, cond } => {
-                loop {
-                    self.step()?;
-                    self.enter()?;
-                    let base = fr.locals.len();
-                    let cbase = self.cells.len();
-                    let cc = self.closures_created;
-                    // the condition sees the body's locals
-                    let r = match self.exec_stmts(body, fr) {
-                        Ok(Flow::Normal) | Ok(Flow::Continue) => match self.eval(cond, fr) {
-                            Ok(c) => Ok(if c.truthy() { Flow::Break } else { Flow::Normal }),
-                            Err(e) => Err(e),
-                        },
-                        other => other,
-                    };
-                    self.leave_scope(fr, base, cbase, cc);
-                    self.native_depth -= 1;
-                    match r? {
-                        Flow::Break => break,
-                        Flow::Return(v) => return Ok(Flow::Return(v)),
-                        Flow::Normal | Flow::Continue => {}
-                    }
-                }
-                Ok(Flow::Normal)
-            }
+            Stmt::While { cond, body } => self.exec_while(cond, body, fr),
+            Stmt::Repeat { body, cond } => self.exec_repeat(body, cond, fr),
             Stmt::If { clauses, else_ } => {
                 for (c, b) in clauses {
                     if self.eval(c, fr)?.truthy() {
@@ -587,122 +725,9 @@ impl<'a, 'h> Interp<'a, 'h> {
                     None => Ok(Flow::Normal),
                 }
             }
-            Stmt::NumFor { var, start, limit, step, body } => {
-                let v0 = self.eval(start, fr)?;
-                let v1 = self.eval(limit, fr)?;
-                let v2 = match step {
-                    Some(s) => Some(self.eval(s, fr)?),
-                    None => None,
-                };
-                let Some(mut i) = self.to_num(&v0) else {
-                    return rt("'for' initial value must be a number");
-                };
-                let Some(lim) = self.to_num(&v1) else {
-                    return rt("'for' limit must be a number");
-                };
-                let stp = match &v2 {
-                    None => 1.0,
-                    Some(v) => match self.to_num(v) {
-                        Some(s) => s,
-                        None => return rt("'for' step must be a number"),
-                    },
-                };
-                if stp == 0.0 {
-                    return rt("'for' step is zero");
-                }
-                loop {
-                    let go = if stp > 0.0 { i <= lim } else { i >= lim };
-                    if !go {
-                        break;
-                    }
-                    self.step()?;
-                    let base = fr.locals.len();
-                    let cbase = self.cells.len();
-                    let cc = self.closures_created;
-                    self.declare(fr, &var.name, Value::Num(i));
-                    let r = self.exec_block(body, fr);
-                    self.leave_scope(fr, base, cbase, cc);
-                    match r? {
-                        Flow::Break => break,
-                        Flow::Return(v) => return Ok(Flow::Return(v)),
-                        Flow::Normal | Flow::Continue => {}
-                    }
-                    i += stp;
-                }
-                Ok(Flow::Normal)
-            }
-            Stmt::GenFor { vars, exprs, body } => {
-                let mut init = self.eval_list(exprs, fr)?.into_iter();
-                let mut f = init.next().unwrap_or(Value::Nil);
-                let mut s = init.next().unwrap_or(Value::Nil);
-                let mut c = init.next().unwrap_or(Value::Nil);
-                if self.dialect == Dialect::Luau {
-                    if let Value::Table(_) = f {
-                        if self.metamethod(&f, MM_CALL).is_nil() {
-                            let it = self.metamethod(&f, MM_ITER);
-                            if it.is_nil() {
-                                s = f;
-                                f = self.next_fn.clone();
-                                c = Value::Nil;
-                            } else {
-                                let mut r = self.call(&it, vec![f.clone()])?.into_iter();
-                                f = r.next().unwrap_or(Value::Nil);
-                                s = r.next().unwrap_or(Value::Nil);
-                                c = r.next().unwrap_or(Value::Nil);
-                            }
-                        }
-                    }
-                }
-                loop {
-                    self.step()?;
-                    let mut rs = self.call(&f, vec![s.clone(), c.clone()])?.into_iter();
-                    let first = rs.next().unwrap_or(Value::Nil);
-                    if first.is_nil() {
-                        break;
-                    }
-                    c = first.clone();
-                    let base = fr.locals.len();
-                    let cbase = self.cells.len();
-                    let cc = self.closures_created;
-                    let mut cur = Some(first);
-                    for b in vars {
-                        let v = match cur.take() {
-                            Some(v) => v,
-                            None => rs.next().unwrap_or(Value::Nil),
-                        };
-                        self.declare(fr, &b.name, v);
-                    }
-                    let r = self.exec_block(body, fr);
-                    self.leave_scope(fr, base, cbase, cc);
-                    match r? {
-                        Flow::Break => break,
-                        Flow::Return(v) => return Ok(Flow::Return(v)),
-                        Flow::Normal | Flow::Continue => {}
-                    }
-                }
-                Ok(Flow::Normal)
-            }
-            Stmt::Function { name, func, .. } => {
-                let has_self = name.method.is_some();
-                let clo = self.make_closure(fr, func, has_self);
-                if name.fields.is_empty() && name.method.is_none() {
-                    self.set_var(fr, &name.base, clo);
-                    return Ok(Flow::Normal);
-                }
-                let mut obj = self.get_var(fr, &name.base);
-                let mut path: Vec<&'a str> = name.fields.iter().map(|s| s.as_str()).collect();
-                if let Some(m) = &name.method {
-                    path.push(m.as_str());
-                }
-                let last = path.pop().expect("non-empty function name path");
-                for p in path {
-                    let k = self.ast_bytes(p.as_bytes());
-                    obj = self.index(&obj, &Value::Str(k))?;
-                }
-                let k = self.ast_bytes(last.as_bytes());
-                self.set_index(&obj, Value::Str(k), clo)?;
-                Ok(Flow::Normal)
-            }
+            Stmt::NumFor { var, start, limit, step, body } => self.exec_numfor(var, start, limit, step.as_ref(), body, fr),
+            Stmt::GenFor { vars, exprs, body } => self.exec_genfor(vars, exprs, body, fr),
+            Stmt::Function { name, func, .. } => self.exec_function_stmt(name, func, fr),
             Stmt::LocalFunction { name, func, .. } => {
                 self.declare(fr, name, Value::Nil);
                 let cell = fr.locals.last().expect("just declared").1;
@@ -799,6 +824,58 @@ impl<'a, 'h> Interp<'a, 'h> {
         r
     }
 
+    #[inline(never)]
+    fn eval_interp(&mut self, segs: &'a [InterpSeg], fr: &mut Frame<'a>) -> R<Value> {
+        let mut out: Vec<u8> = Vec::new();
+        for s in segs {
+            match s {
+                InterpSeg::Str(b) => out.extend_from_slice(b),
+                InterpSeg::Expr(x) => {
+                    let v = self.eval(x, fr)?;
+                    let b = self.tostring_bytes(&v)?;
+                    out.extend_from_slice(&b);
+                }
+            }
+        }
+        self.new_string(out)
+    }
+
+    #[inline(never)]
+    fn eval_table(&mut self, items: &'a [TableItem], fr: &mut Frame<'a>) -> R<Value> {
+        let t = self.new_table();
+        let mut pos = 1f64;
+        let n = items.len();
+        for (i, item) in items.iter().enumerate() {
+            match item {
+                TableItem::Pos(x) => {
+                    if i + 1 == n {
+                        let mut vals = Vec::new();
+                        self.eval_multi(x, fr, &mut vals)?;
+                        for v in vals {
+                            let _ = self.tables[t as usize].set(Value::Num(pos), v);
+                            pos += 1.0;
+                        }
+                    } else {
+                        let v = self.eval(x, fr)?;
+                        let _ = self.tables[t as usize].set(Value::Num(pos), v);
+                        pos += 1.0;
+                    }
+                }
+                TableItem::Named(name, x) => {
+                    let v = self.eval(x, fr)?;
+                    let k = self.ast_bytes(name.as_bytes());
+                    let _ = self.tables[t as usize].set(Value::Str(k), v);
+                }
+                TableItem::Keyed(kx, x) => {
+                    let k = self.eval(kx, fr)?;
+                    let v = self.eval(x, fr)?;
+                    self.raw_set(t, k, v)?;
+                }
+            }
+        }
+        Ok(Value::Table(t))
+    }
+
     fn eval_inner(&mut self, e: &'a Expr, fr: &mut Frame<'a>) -> R<Value> {
         match e {
             Expr::Nil => Ok(Value::Nil),
@@ -812,20 +889,7 @@ impl<'a, 'h> Interp<'a, 'h> {
                 }
                 Ok(fr.varargs.first().cloned().unwrap_or(Value::Nil))
             }
-            Expr::Interp(segs) => {
-                let mut out: Vec<u8> = Vec::new();
-                for s in segs {
-                    match s {
-                        InterpSeg::Str(b) => out.extend_from_slice(b),
-                        InterpSeg::Expr(x) => {
-                            let v = self.eval(x, fr)?;
-                            let b = self.tostring_bytes(&v)?;
-                            out.extend_from_slice(&b);
-                        }
-                    }
-                }
-                self.new_string(out)
-            }
+            Expr::Interp(segs) => self.eval_interp(segs, fr),
             Expr::Name(n) => Ok(self.get_var(fr, n)),
             Expr::Index { obj, key } => {
                 let o = self.eval(obj, fr)?;
@@ -872,40 +936,7 @@ impl<'a, 'h> Interp<'a, 'h> {
                     self.binary(*op, &a, &b)
                 }
             },
-            Expr::Table(items) => {
-                let t = self.new_table();
-                let mut pos = 1f64;
-                let n = items.len();
-                for (i, item) in items.iter().enumerate() {
-                    match item {
-                        TableItem::Pos(x) => {
-                            if i + 1 == n {
-                                let mut vals = Vec::new();
-                                self.eval_multi(x, fr, &mut vals)?;
-                                for v in vals {
-                                    let _ = self.tables[t as usize].set(Value::Num(pos), v);
-                                    pos += 1.0;
-                                }
-                            } else {
-                                let v = self.eval(x, fr)?;
-                                let _ = self.tables[t as usize].set(Value::Num(pos), v);
-                                pos += 1.0;
-                            }
-                        }
-                        TableItem::Named(name, x) => {
-                            let v = self.eval(x, fr)?;
-                            let k = self.ast_bytes(name.as_bytes());
-                            let _ = self.tables[t as usize].set(Value::Str(k), v);
-                        }
-                        TableItem::Keyed(kx, x) => {
-                            let k = self.eval(kx, fr)?;
-                            let v = self.eval(x, fr)?;
-                            self.raw_set(t, k, v)?;
-                        }
-                    }
-                }
-                Ok(Value::Table(t))
-            }
+            Expr::Table(items) => self.eval_table(items, fr),
             Expr::IfExpr { clauses, else_ } => {
                 for (c, v) in clauses {
                     if self.eval(c, fr)?.truthy() {
@@ -1025,7 +1056,19 @@ impl<'a, 'h> Interp<'a, 'h> {
         }
     }
 
+    /// hashing / comparing a long string is paid for (256 bytes a step)
+    #[inline]
+    pub(crate) fn charge_str(&mut self, v: &Value) -> R<()> {
+        if let Value::Str(s) = v {
+            if s.len() >= 256 {
+                return self.charge((s.len() / 256) as u64);
+            }
+        }
+        Ok(())
+    }
+
     pub(crate) fn index(&mut self, obj: &Value, key: &Value) -> R<Value> {
+        self.charge_str(key)?;
         let mut cur = obj.clone();
         for _ in 0..100 {
             let h;
@@ -1059,6 +1102,7 @@ impl<'a, 'h> Interp<'a, 'h> {
     }
 
     pub(crate) fn set_index(&mut self, obj: &Value, key: Value, val: Value) -> R<()> {
+        self.charge_str(&key)?;
         let mut cur = obj.clone();
         for _ in 0..100 {
             let h;
@@ -1159,6 +1203,11 @@ impl<'a, 'h> Interp<'a, 'h> {
     }
 
     pub(crate) fn equals(&mut self, a: &Value, b: &Value) -> R<bool> {
+        if let (Value::Str(x), Value::Str(y)) = (a, b) {
+            if x.len() == y.len() && !Rc::ptr_eq(x, y) {
+                self.charge_str(a)?;
+            }
+        }
         if raw_equal(a, b) {
             return Ok(true);
         }
@@ -1179,6 +1228,9 @@ impl<'a, 'h> Interp<'a, 'h> {
         match (a, b) {
             (Value::Num(x), Value::Num(y)) => return Ok(if or_equal { x <= y } else { x < y }),
             (Value::Str(x), Value::Str(y)) => {
+                if x.len() >= 256 && y.len() >= 256 {
+                    self.charge((x.len().min(y.len()) / 256) as u64)?;
+                }
                 return Ok(if or_equal { x[..] <= y[..] } else { x[..] < y[..] })
             }
             _ => {}
